@@ -36,20 +36,24 @@ class LibraryRaised(HarnessError):
         self.text = text
 
 
-def lib_raised(tb):
+def lib_raised(tb, exc_type=None):
     """True if the innermost library / harness / generated-program frame of the traceback is a library frame."""
     lib = os.path.join(os.path.abspath(REPO), "twosigma") + os.sep
-    last = None
+    kinds = []
     while tb is not None:
         fn = tb.tb_frame.f_code.co_filename
         if fn.startswith(lib):
-            last = "lib"
+            kinds.append("lib")
         elif fn.startswith(VERIF + os.sep):
-            last = "harness"
+            kinds.append("harness")
         elif fn.startswith("<") or (_SCRATCH_BASE and fn.startswith(_SCRATCH_BASE)) or "/verif-" in fn:
-            last = "program"
+            kinds.append("program")
         tb = tb.tb_next
-    return last == "lib"
+    if exc_type is not None and issubclass(exc_type, RecursionError) and len(kinds) > 100:
+        # where the interpreter's limit happened to be hit says nothing (it may be inside a seam the library called into):
+        # what matters is who was recursing
+        return set(kinds[-100:-10]) == {"lib"}
+    return bool(kinds) and kinds[-1] == "lib"
 
 
 def library_violation(e):
@@ -171,7 +175,7 @@ def lifetime(fn, timeout=None):
             try:
                 fn(emit)
             except BaseException as e:  # failure inside the child that the check did not anticipate
-                emit({"HARNESS": traceback.format_exc()[-3000:], "lib": lib_raised(e.__traceback__), "exc": type(e).__name__})
+                emit({"HARNESS": traceback.format_exc()[-3000:], "lib": lib_raised(e.__traceback__, type(e)), "exc": type(e).__name__})
                 code = 3
         finally:
             os._exit(code)
